@@ -12,6 +12,7 @@ import (
 // assumed, each ensures is a goal.  With "induct k" the lemma may be used as a
 // hypothesis for k-1 (k > 0): the classical structural induction on naturals.
 func VerifyLemma(C *Contracts, lm *Lemma) (obs []*Obligation, errs string) {
+	resetGlobals()
 	e := &Engine{ctx: NewCtx(), contracts: C, heapSorts: map[string]string{}, topName: "lemma." + lm.Name,
 		ordinals: map[string]int{}, notes: map[string]int{}, cfg: &Config{}, tags: lm.Tags}
 	e.ctx.pre = append(e.ctx.pre, prelude)
